@@ -540,7 +540,7 @@ class LM(object):
                 ratio = -2*(num / den)
             else:
                 ratio = 0
-            if (ratio < mu0):
+            if (ratio < mu0) or (not np.all(np.isfinite(rtemp))):
                 nu = max(omup*nu, self.nu0)
             else:
                 x, r, f = np.copy(xtemp), np.copy(rtemp), np.copy(ftemp)
